@@ -56,7 +56,27 @@ GEN_INPUTS.append(
 GEN_MAPS.append((2.0, (("Scaffold_1", (("scaffold_1", 1, 46, 1, ()),)), ("Scaffold_2", (("scaffold_2", 1, 20, 1, ()),)), ("Scaffold_3", (("scaffold_2", 21, 60, -1, ()),)))))
 # Primary mode where the scaffold that carries Primary also carries a haplotype tag and starts with a contig named for the other haplotype
 GEN_MAPS.append((2.0, (("Scaffold_1", (("HAP2_SCAFFOLD_2", 1, 50, 1, ("Painted", "Hap1", "Primary")),)), ("Scaffold_2", (("HAP1_SCAFFOLD_1", 1, 36, 1, ("Painted", "Hap2")),)))))
-GEN_CASES = [(0, 0), (0, 1), (1, 2), (1, 3), (2, 4), (1, 5)]  # (input index, map index)
+# Primary mode with three haplotypes: the two that are not primary are merged into one all_haplotigs assembly
+GEN_INPUTS.append(
+    (
+        ("HAP1_SCAFFOLD_1", (("F", "HAP1_SCAFFOLD_1", 1, 36, 1),)),
+        ("HAP2_SCAFFOLD_2", (("F", "HAP2_SCAFFOLD_2", 1, 30, 1), ("G", 4, "scaffold"), ("F", "HAP2_SCAFFOLD_2", 35, 50, 1))),
+        ("HAP3_SCAFFOLD_3", (("F", "HAP3_SCAFFOLD_3", 1, 24, 1),)),
+        ("HAP3_SCAFFOLD_4", (("F", "HAP3_SCAFFOLD_4", 1, 10, 1),)),
+    )
+)
+GEN_MAPS.append(
+    (
+        2.0,
+        (
+            ("Scaffold_1", (("HAP1_SCAFFOLD_1", 1, 36, 1, ("Painted", "Hap1", "Primary")),)),
+            ("Scaffold_2", (("HAP3_SCAFFOLD_3", 1, 24, 1, ("Painted", "Hap3")),)),
+            ("Scaffold_3", (("HAP2_SCAFFOLD_2", 1, 50, 1, ("Painted", "Hap2")),)),
+            ("Scaffold_4", (("HAP3_SCAFFOLD_4", 1, 10, -1, ("Hap3",)),)),
+        ),
+    )
+)
+GEN_CASES = [(0, 0), (0, 1), (1, 2), (1, 3), (2, 4), (1, 5), (3, 6)]  # (input index, map index)
 # the same scaffold names with another gap layout: what an older version of the FASTA looked like
 ALT_INPUTS = [
     (
@@ -71,6 +91,12 @@ ALT_INPUTS = [
     (
         ("scaffold_1", (("F", "scaffold_1", 1, 20, 1), ("G", 26, "scaffold"))),
         ("scaffold_2", (("F", "scaffold_2", 1, 60, 1),)),
+    ),
+    (
+        ("HAP1_SCAFFOLD_1", (("F", "HAP1_SCAFFOLD_1", 1, 16, 1), ("G", 4, "scaffold"), ("F", "HAP1_SCAFFOLD_1", 21, 36, 1))),
+        ("HAP2_SCAFFOLD_2", (("F", "HAP2_SCAFFOLD_2", 1, 50, 1),)),
+        ("HAP3_SCAFFOLD_3", (("F", "HAP3_SCAFFOLD_3", 1, 10, 1), ("G", 4, "scaffold"), ("F", "HAP3_SCAFFOLD_3", 15, 24, 1))),
+        ("HAP3_SCAFFOLD_4", (("F", "HAP3_SCAFFOLD_4", 1, 10, 1),)),
     ),
 ]
 
@@ -158,6 +184,7 @@ class C17(Check):
         for block in range(4):
             out.append(("sequence", block, tier))
         out.append(("seqhist", tier))
+        out.append(("round2", tier))
         for gi in range(len(GEN_CASES)):
             out.append(("formats", gi, tier))
         return out
@@ -615,6 +642,73 @@ class C17(Check):
         finally:
             cli.cleanup(d)
 
+    def second_round(self, tier, ctx):
+        """
+        a second curation round that takes a FASTA written by the first round as its --assembly: run where the first
+        round left it (with everything that round wrote beside it, with and without a .fai made by another tool) and on
+        a copy of the FASTA alone in a fresh directory.  Outputs must be the same.
+        """
+        d = cli.scratch("verif_c17_")
+        try:
+            (d / "in").mkdir()
+            for gi in (0, 1):
+                ii, mi = GEN_CASES[gi]
+                base = d / f"g{gi}"
+                (base / "r1").mkdir(parents=True)
+                cli.write_fasta(base / "asm.fa", GEN_INPUTS[ii], width=11)
+                cli.write_pretext(base / "map.agp", GEN_MAPS[mi])
+                worker("cli", {"argv": ["-a", str(base / "asm.fa"), "-p", str(base / "map.agp"), "-o", str(base / "r1" / "x.fa")], "cwd": "/"})
+                for fa in sorted((base / "r1").glob("*.fa")):
+                    recs = []
+                    off = 0
+                    name = None
+                    for line in fa.read_bytes().split(b"\n")[:-1]:
+                        if line.startswith(b">"):
+                            name = line[1:].decode()
+                            recs.append([name, 0, off + len(line) + 1])
+                        else:
+                            recs[-1][1] += len(line)
+                        off += len(line) + 1
+                    if not recs or any(ln < 4 for _, ln, _ in recs):
+                        continue
+                    map2 = (2.0, tuple((f"Scaffold_{k + 1}", ((n, 1, ln - (ln % 2), 1, ()),)) for k, (n, ln, _) in enumerate(recs)))
+                    cli.write_pretext(base / "map2.agp", map2)
+                    outs = {}
+                    for state in ("cold", "as-left+fai", "as-left"):
+                        case = ["round2", gi, fa.name, state]
+                        ctx.cur = case
+                        ctx.evaluations += 1
+                        ctx.nontrivial += 1
+                        if state == "cold":
+                            src = base / "cold" / "in.fa"
+                            src.parent.mkdir(exist_ok=True)
+                            shutil.copyfile(fa, src)
+                        else:
+                            src = fa
+                            # (a clock tick between the FASTA and what was written after it: files written later are newer)
+                            st_ = os.stat(fa)
+                            os.utime(fa, ns=(st_.st_mtime_ns - 2_000_000_000, st_.st_mtime_ns - 2_000_000_000))
+                            if state == "as-left+fai":
+                                # what `samtools faidx` writes: name, length, offset, bases per line, bytes per line
+                                with open(str(fa) + ".fai", "w") as fh:
+                                    for n, ln, o in recs:
+                                        fh.write(f"{n}\t{ln}\t{o}\t{min(ln, 60)}\t{min(ln, 60) + 1}\n")
+                        od = base / f"r2_{fa.stem}_{state}"
+                        od.mkdir()
+                        codes = json.loads(worker("cli", {"argv": ["-a", str(src), "-p", str(base / "map2.agp"), "-o", str(od / "y.fa")], "cwd": "/"}).strip().splitlines()[-1])
+                        outs[state] = (codes, {n: v for n, v in files_norm(od, od).items() if not n.endswith(".log")})
+                        if state != "cold" and outs[state] != outs["cold"]:
+                            diff = sorted(n for n in set(outs[state][1]) | set(outs["cold"][1]) if outs[state][1].get(n) != outs["cold"][1].get(n))
+                            ctx.violation("second-round-output-depends-on-what-the-first-round-left-beside-its-fasta", case, f"exit {outs[state][0]} vs {outs['cold'][0]}; differing files {diff!r}")
+                        for sfx in (".fai", ".agp"):
+                            pth = Path(str(fa) + sfx)
+                            if state == "as-left+fai" and pth.exists() and sfx == ".fai":
+                                pth.unlink()
+                    ctx.outcome(h64(sorted(outs["cold"][1].items())))
+            ctx.sample({"second_round": "a FASTA written by round 1 is the --assembly of round 2: as left / with a foreign .fai / copied alone"})
+        finally:
+            cli.cleanup(d)
+
     # ---------------------------------------------------------------- (iv)
     def formats(self, gi, tier, ctx):
         ii, mi = GEN_CASES[gi]
@@ -671,6 +765,8 @@ class C17(Check):
             self.sequence_orders(shard[1], shard[2], ctx)
         elif kind == "seqhist":
             self.sequence_histories(shard[1], ctx)
+        elif kind == "round2":
+            self.second_round(shard[1], ctx)
         elif kind == "formats":
             self.formats(shard[1], shard[2], ctx)
 
@@ -691,6 +787,8 @@ class C17(Check):
             self.sequence_orders(0, tier, ctx, only_perm=case[1])
         elif kind == "seqhist":
             self.sequence_histories(tier, ctx, only=case[1])
+        elif kind == "round2":
+            self.second_round(tier, ctx)
         elif kind == "formats":
             self.formats(case[1], tier, ctx)
 
@@ -700,3 +798,4 @@ CHECK = C17()
 # scope added in later rounds, kept in the evidence text
 CHECK.rule += ' Sequence histories: the same FASTA path holding another file for the second invocation (caches removed or kept), and the same scaffold name with another rank in the second invocation; compared with the second invocation alone in a fresh process.'
 CHECK.rule += ' Also a job that needs lettered chromosome names (SUPER_1A / SUPER_1B) run twice in one process. Buffer sweep also over strings with the ambiguity code R (length <= 6).'
+CHECK.rule += ' Second round: every FASTA written by a first run is used as --assembly of a second run, where the first run left it (with and without a .fai made by another tool) and copied alone; same outputs. Generated cases include Primary mode with three haplotypes.'
